@@ -35,7 +35,7 @@ from props import c11
 EXTRACTORS = ["Registry", "Cacheconc"]
 EXTRA_PROPS = ["C10Cache"]   # cache_concurrent_serializable (Props/C10Cache.lean); harness part in c10_cache.py
 STEP_TIMEOUT = 20.0          # seconds the scheduler waits for any progress before it gives up
-BLOCK_TIMEOUT = 4.0          # a step that takes longer is taken to wait on a primitive the scheduler does not know (an Event, a
+BLOCK_TIMEOUT = 2.5          # a step that takes longer is taken to wait on a primitive the scheduler does not know (an Event, a
                              # Condition, a lock created inside a function): the worker is left alone and others are scheduled
 POINT_CAP = 3                # preemptions per source line and event kind within one call into the traced files
 METHODS = ["register", "register_on_import", "get_by_tensors", "get_by_name", "get", "enter", "exit"]
@@ -155,8 +155,12 @@ class ProxySet:
             pr.owner, pr.count = None, 0
 
 
+OS_BLOCK_BUDGET = 8          # per process: each such wait costs BLOCK_TIMEOUT seconds
+
+
 class Scheduler:
     """Runs worker functions in threads, one at a time; preemption points are the trace events in `files`."""
+    total_os_blocks = 0
 
     def __init__(self, files, point_filter=None):
         self.back = None
@@ -329,6 +333,10 @@ class Scheduler:
                             w.state = "osblocked"
                     if left_waiting:
                         self.os_blocks += 1
+                        Scheduler.total_os_blocks += 1
+                        if Scheduler.total_os_blocks > OS_BLOCK_BUDGET:
+                            raise core.MachineryError(f"scheduler: workers waited on primitives unknown to the scheduler more than {OS_BLOCK_BUDGET} times "
+                                                      f"(last: worker {choice} at {w.pos})")
                         self.events.append(("osblocked", choice))
                     elif not self._await(choice, STEP_TIMEOUT):
                         raise core.MachineryError(f"scheduler: a step of worker {choice} at {w.pos} did not finish within {STEP_TIMEOUT}s")
